@@ -736,8 +736,43 @@ func zeroOrNil(t types.Type) Value {
 	return zeroValue(t)
 }
 
+// selectStmt: only receive cases are modelled. A nil channel is never ready; any other channel
+// (ctx.Done() of a cancellable context, time.After) may be ready: one path per such case.
 func (e *Engine) selectStmt(s *State, f *Frame, x *ssa.Select) {
-	unsupp("select statement")
+	var ready []int
+	for i, st := range x.States {
+		if st.Dir != types.RecvOnly {
+			unsupp("select with a send case")
+		}
+		ch, ok := e.get(s, f, st.Chan).(ChanV)
+		if !ok {
+			unsupp("select on %T", e.get(s, f, st.Chan))
+		}
+		if ch.Obj != 0 {
+			ready = append(ready, i)
+		}
+	}
+	mk := func(idx int) Value {
+		tv := TupleV{I64(idx), True}
+		for _, st := range x.States {
+			tv = append(tv, zeroValue(st.Chan.Type().Underlying().(*types.Chan).Elem()))
+		}
+		return tv
+	}
+	if !x.Blocking {
+		ready = append(ready, -1)
+	}
+	if len(ready) == 0 {
+		s.Status = "unsupported: select blocks forever (no ready channel)"
+		return
+	}
+	e.Stubs["select: any case whose channel is non-nil may fire"] = true
+	for _, idx := range ready[1:] {
+		o := s.Clone()
+		o.top().Locals[x] = mk(idx)
+		e.Pending = append(e.Pending, o)
+	}
+	s.top().Locals[x] = mk(ready[0])
 }
 
 func (e *Engine) describe(v Value) string {
